@@ -399,8 +399,9 @@ Section Theorems.
   (* ------------------------------------------------------------------------------------------ *)
   Definition no_orphan (s : state) : Prop :=
     forall id, lookup id (hot s) <> None -> lookup id (cold s) <> None.
+  (* every mirror entry of s' is, unchanged, a mirror entry of s *)
   Definition hot_sub (s' s : state) : Prop :=
-    forall k, lookup k (hot s') <> None -> lookup k (hot s) <> None.
+    forall k h, lookup k (hot s') = Some h -> lookup k (hot s) = Some h.
   Definition l1_ok (c : config) (s : state) : Prop :=
     length (l1a s) <= cap_a c /\ length (l1b s) <= cap_b c.
   Definition caps_ok (c : config) : Prop := 1 <= cap_a c /\ 1 <= cap_b c.
@@ -413,11 +414,19 @@ Section Theorems.
   Proof. unfold hot_sub; intros. rewrite <- H. auto. Qed.
   Lemma hot_sub_remove : forall s' s id, hot s' = remove id (hot s) -> hot_sub s' s.
   Proof.
-    unfold hot_sub; intros s' s id H k Hk. rewrite H, lookup_remove in Hk.
+    unfold hot_sub; intros s' s id H k h Hk. rewrite H, lookup_remove in Hk.
     destruct (N.eqb id k); congruence.
   Qed.
+  Lemma hot_sub_remove_all : forall s' s ids, hot s' = remove_all ids (hot s) -> hot_sub s' s.
+  Proof.
+    unfold hot_sub; intros s' s ids H k h Hk. rewrite H, lookup_remove_all in Hk.
+    destruct (existsb (N.eqb k) ids); congruence.
+  Qed.
   Lemma no_orphan_sub : forall s' s, no_orphan s -> cold s' = cold s -> hot_sub s' s -> no_orphan s'.
-  Proof. unfold no_orphan, hot_sub. intros s' s H C S id Hid. rewrite C. auto. Qed.
+  Proof.
+    unfold no_orphan, hot_sub. intros s' s H C S id Hid. rewrite C.
+    destruct (lookup id (hot s')) as [h|] eqn:E; [|congruence]. apply H. rewrite (S id h E). congruence.
+  Qed.
 
   Lemma in_lookup : forall {A} k (a : A) l, In (k, a) l -> lookup k l <> None.
   Proof.
@@ -760,7 +769,7 @@ Section Theorems.
     - split; [auto|]. split; [|split].
       + intros k. apply canon_cold. rewrite cold_l1_invalidate. auto.
       + eapply no_orphan_sub; [exact NO| rewrite cold_l1_invalidate; auto|].
-        unfold hot_sub. rewrite hot_l1_invalidate. destruct H1 as [H1|[H1 _]]; rewrite H1; cbn; auto.
+        unfold hot_sub. rewrite hot_l1_invalidate. destruct H1 as [H1|[H1 _]]; rewrite H1; cbn; auto; congruence.
       + intros Hh. rewrite hot_l1_invalidate. destruct H1 as [H1|[H1 H2]]; rewrite H1; cbn; lia.
   Qed.
 
@@ -854,35 +863,44 @@ Section Theorems.
       fold_left (bulk_load_one valid) docs (s, a, b) = (s1, a1, b1) /\
       hot s1 = hot s /\ l1a s1 = l1a s /\ l1b s1 = l1b s /\
       (forall k, canon s1 k = lookup k (fold_left (fun acc x => spec_insert acc (fst (fst x)) (snd (fst x)) (snd x)) docs d)) /\
-      (forall k, lookup k (cold s) <> None -> lookup k (cold s1) <> None).
+      (forall k, lookup k (cold s) <> None -> lookup k (cold s1) <> None) /\
+      (forall k, existsb (N.eqb k) (map (fun x => fst (fst x)) docs) = false -> lookup k (cold s1) = lookup k (cold s)).
   Proof.
     induction docs as [|[[id v] m] r IH]; cbn; intros s a b d H.
     - exists s, a, b. auto 10.
     - unfold Tiered.cold_insert, spec_insert. destruct (valid v) eqn:V.
       + set (s0 := set_cold s (put id (mkC v (meta_canon m) (match lookup id (cold s) with Some r0 => N.succ (c_ver r0) | None => 1%N end)) (cold s))).
-        destruct (IH s0 (S a) b (put id (v, meta_canon m) d)) as [s1 [a1 [b1 [F [Hh [La [Lb [K M]]]]]]]].
+        destruct (IH s0 (S a) b (put id (v, meta_canon m) d)) as [s1 [a1 [b1 [F [Hh [La [Lb [K [M U]]]]]]]]].
         { intros k. unfold canon, s0. sproj. rewrite !lookup_put. destruct (N.eqb id k); auto. apply H. }
-        exists s1, a1, b1. repeat split; auto.
-        intros k Hk. apply M. unfold s0. sproj. rewrite lookup_put. destruct (N.eqb id k); [congruence|auto].
-      + destruct (IH s a (S b) d H) as [s1 [a1 [b1 [F R]]]]. exists s1, a1, b1. auto.
+        exists s1, a1, b1. split; [auto|]. split; [auto|]. split; [auto|]. split; [auto|]. split; [auto|]. split.
+        * intros k Hk. apply M. unfold s0. sproj. rewrite lookup_put. destruct (N.eqb id k); [congruence|auto].
+        * intros k Hk. apply orb_false_iff in Hk. destruct Hk as [Hk1 Hk2]. rewrite (U k Hk2).
+          unfold s0. sproj. rewrite lookup_put. rewrite N.eqb_sym, Hk1. auto.
+      + destruct (IH s a (S b) d H) as [s1 [a1 [b1 [F [Hh [La [Lb [K [M U]]]]]]]]]. exists s1, a1, b1.
+        split; [auto|]. split; [auto|]. split; [auto|]. split; [auto|]. split; [auto|]. split; [auto|].
+        intros k Hk. apply orb_false_iff in Hk. destruct Hk as [_ Hk2]. auto.
   Qed.
 
   Lemma bulk_load_char : forall c s docs,
     (forall k, canon (fst (bulk_load valid c s docs)) k = lookup k (spec_step (cold_docs s) (OBulkLoad docs))) /\
     (no_orphan s -> no_orphan (fst (bulk_load valid c s docs))) /\
     (l1_ok c s -> l1_ok c (fst (bulk_load valid c s docs))) /\
-    hot (fst (bulk_load valid c s docs)) = hot s.
+    hot (fst (bulk_load valid c s docs)) = remove_all (map (fun d => fst (fst d)) docs) (hot s) /\
+    (forall k, existsb (N.eqb k) (map (fun d => fst (fst d)) docs) = false ->
+               lookup k (cold (fst (bulk_load valid c s docs))) = lookup k (cold s)).
   Proof.
     intros c s docs. unfold bulk_load.
-    destruct (bulk_fold_char docs s 0 0 (cold_docs s)) as [s1 [a1 [b1 [F [Hh [La [Lb [K M]]]]]]]].
+    destruct (bulk_fold_char docs s 0 0 (cold_docs s)) as [s1 [a1 [b1 [F [Hh [La [Lb [K [M U]]]]]]]]].
     { intros k. symmetry. apply lookup_cold_docs. }
-    rewrite F. cbn [fst].
+    rewrite F. cbv zeta. cbn [fst].
     destruct (fold_invalidate_frame c (map (fun d => fst (fst d)) docs) s1) as [A [B C]].
-    split; [|split; [|split]].
+    split; [|split; [|split; [|split]]].
     - intros k. rewrite (canon_cold s1); auto.
-    - intros NO. unfold no_orphan. rewrite A, B, Hh. intros k Hk. apply M. apply NO. auto.
-    - intros H. apply C. eapply l1_ok_frame; eauto.
-    - congruence.
+    - intros NO. unfold no_orphan. sproj. rewrite A, B, Hh. intros k Hk. apply M. apply NO.
+      rewrite lookup_remove_all in Hk. destruct (existsb _ _); congruence.
+    - intros H. eapply l1_ok_frame; [| |apply C; eapply l1_ok_frame; eauto]; reflexivity.
+    - sproj. congruence.
+    - intros k Hk. sproj. rewrite A. auto.
   Qed.
 
   (* ---------- the step function as a whole ---------- *)
@@ -1076,6 +1094,136 @@ Section Theorems.
         eapply IH; [apply N1; auto| |exact H].
         intros k. rewrite K. apply spec_step_equiv. auto. }
     intros s H. eapply G; eauto. apply init_no_orphan. intros k. auto.
+  Qed.
+
+  (* ------------------------------------------------------------------------------------------ *)
+  (* no stale mirror: after an API history without mirror pokes every hot-tier entry carries the   *)
+  (* CURRENT canonical token and payload of its id (needed by C06: hot k-NN candidates are live)   *)
+  (* ------------------------------------------------------------------------------------------ *)
+  Definition mirror_fresh (s : state) : Prop :=
+    forall id h, lookup id (hot s) = Some h ->
+    exists r, lookup id (cold s) = Some r /\ h_vec h = c_vec r /\ h_tok h = (c_ver r, digest (c_vec r)).
+
+  Lemma fresh_no_orphan : forall s, mirror_fresh s -> no_orphan s.
+  Proof.
+    unfold mirror_fresh, no_orphan. intros s F id H.
+    destruct (lookup id (hot s)) as [h|] eqn:E; [|congruence].
+    destruct (F id h E) as [r [L _]]. congruence.
+  Qed.
+
+  Lemma fresh_match : forall s, mirror_fresh s ->
+    forall id h, lookup id (hot s) = Some h -> canon_state s id (h_vec h) (h_tok h) = CMatch.
+  Proof.
+    intros s F id h H. destruct (F id h H) as [r [L [V T]]].
+    unfold Tiered.canon_state, cold_token. rewrite L, T, V. cbn [snd].
+    assert (E1 : tok_eqb (c_ver r, digest (c_vec r)) (c_ver r, digest (c_vec r)) = true) by (apply tok_eqb_eq; auto).
+    assert (E2 : vec_eqb (digest (c_vec r)) (digest (c_vec r)) = true) by (apply vec_eqb_eq; auto).
+    rewrite E1, E2. reflexivity.
+  Qed.
+
+  Lemma fresh_sub : forall s' s, mirror_fresh s -> cold s' = cold s -> hot_sub s' s -> mirror_fresh s'.
+  Proof. unfold mirror_fresh, hot_sub. intros s' s F C S id h H. rewrite C. auto. Qed.
+
+  Lemma insert_fresh : forall c s id v m, mirror_fresh s -> mirror_fresh (fst (insert digest valid c s id v m)).
+  Proof.
+    intros c s id v m F. rewrite insert_unfold.
+    destruct (insert_pre_no_orphan c s (fresh_no_orphan s F)) as [s1 [P [C1 H1]]]. rewrite P. cbn [negb].
+    cbv zeta. unfold Tiered.cold_insert. rewrite cold_l1_invalidate.
+    assert (F1 : mirror_fresh (l1_invalidate c s1 id)).
+    { eapply fresh_sub; [exact F|rewrite cold_l1_invalidate; auto|].
+      unfold hot_sub. rewrite hot_l1_invalidate. destruct H1 as [H1|[H1 _]]; rewrite H1; cbn; auto; congruence. }
+    destruct (valid v) eqn:V; cbn [fst]; [|exact F1].
+    unfold mirror_fresh, cold_token. sproj. rewrite hot_l1_invalidate, lookup_put_eq.
+    intros k h. rewrite !lookup_put. destruct (N.eqb id k) eqn:X.
+    - intros H. inversion H; subst h. cbn [h_vec h_tok]. eexists. split; [reflexivity|]. cbn [c_vec c_ver]. auto.
+    - intros H. unfold mirror_fresh in F1. rewrite hot_l1_invalidate, cold_l1_invalidate in F1. apply F1. auto.
+  Qed.
+
+  Lemma delete_fresh : forall c s id, mirror_fresh s -> mirror_fresh (fst (delete c s id)).
+  Proof.
+    intros c s id F. unfold delete.
+    set (s1 := set_hot (set_cold s (remove id (cold s))) (remove id (hot s))).
+    assert (F1 : mirror_fresh s1).
+    { unfold mirror_fresh, s1. sproj. intros k h. rewrite !lookup_remove. destruct (N.eqb id k); [congruence|apply F]. }
+    destruct (negb (mem id (cold s)) && negb (mem id (hot s))); cbn [fst]; auto.
+    eapply fresh_sub; [exact F1|apply cold_l1_invalidate|apply hot_sub_eq; apply hot_l1_invalidate].
+  Qed.
+
+  Lemma batch_delete_fresh : forall c s ids, mirror_fresh s -> mirror_fresh (fst (batch_delete c s ids)).
+  Proof.
+    intros c s ids F. unfold batch_delete.
+    destruct (Nat.eqb _ 0); cbn [fst]; auto.
+    set (u := sort_dedup ids).
+    set (s1 := set_hot (set_cold s (remove_all u (cold s))) (remove_all u (hot s))).
+    destruct (fold_invalidate_frame c u s1) as [A [B _]].
+    eapply fresh_sub; [|exact A|apply hot_sub_eq; exact B].
+    unfold mirror_fresh, s1. sproj. intros k h. rewrite !lookup_remove_all.
+    destruct (existsb (N.eqb k) u); [congruence|apply F].
+  Qed.
+
+  Lemma update_meta_fresh : forall s id m merge, mirror_fresh s -> mirror_fresh (fst (update_meta s id m merge)).
+  Proof.
+    intros s id m merge F. unfold update_meta.
+    destruct (lookup id (cold s)) as [r|] eqn:E; cbn [fst]; auto.
+    set (s1 := set_cold s (put id (mkC (c_vec r) (apply_meta (c_meta r) m merge) (c_ver r)) (cold s))).
+    assert (F1 : mirror_fresh s1).
+    { unfold mirror_fresh, s1. sproj. intros k h H. rewrite lookup_put. destruct (F k h H) as [r0 [L R]].
+      destruct (N.eqb id k) eqn:X; [|eauto]. apply N.eqb_eq in X. subst k. rewrite E in L. inversion L; subst r0.
+      eexists. split; [reflexivity|]. cbn [c_vec c_ver]. auto. }
+    destruct (lookup id (hot s1)) as [h0|] eqn:Eh; auto.
+    unfold mirror_fresh. sproj. intros k h. rewrite lookup_put. destruct (N.eqb id k) eqn:X.
+    - apply N.eqb_eq in X. subst k. intros H. inversion H; subst h. cbn [h_vec h_tok]. apply (F1 id h0 Eh).
+    - apply F1.
+  Qed.
+
+  Lemma bulk_load_fresh : forall c s docs, mirror_fresh s -> mirror_fresh (fst (bulk_load valid c s docs)).
+  Proof.
+    intros c s docs F. destruct (bulk_load_char c s docs) as [_ [_ [_ [Hh U]]]].
+    unfold mirror_fresh. rewrite Hh. intros k h. rewrite lookup_remove_all.
+    destruct (existsb (N.eqb k) (map (fun d => fst (fst d)) docs)) eqn:X; [congruence|].
+    intros H. rewrite (U k X). apply F. auto.
+  Qed.
+
+  Definition no_hot_poke (o : op) : bool := match o with OPokeHot _ _ _ _ => false | _ => true end.
+
+  Lemma step_fresh : forall c s o, no_hot_poke o = true -> mirror_fresh s -> mirror_fresh (fst (step c s o)).
+  Proof.
+    intros c s o G F. pose proof (fresh_no_orphan s F) as NO.
+    assert (R : forall s', cold s' = cold s -> hot_sub s' s -> mirror_fresh s') by (intros; eapply fresh_sub; eauto).
+    destruct o; cbn [Tiered.step]; try discriminate.
+    - pose proof (query_frame c s adm id) as [Fr _]. pose proof (query_canonical c s adm id) as [_ C].
+      destruct (query c s adm id). cbn in *. auto.
+    - pose proof (get_doc_frame c s id) as [Fr _]. pose proof (get_doc_canonical c s id) as [_ C].
+      destruct (get_doc c s id). cbn in *. auto.
+    - pose proof (get_emb_frame c s id) as [Fr _]. pose proof (get_emb_canonical c s id) as [_ C].
+      destruct (get_emb c s id). cbn in *. auto.
+    - auto.
+    - auto.
+    - pose proof (bulk_frame c s inc ids) as [C [Fr _]]. destruct (bulk c s inc ids). cbn in *. auto.
+    - pose proof (insert_fresh c s id v m F) as X. destruct (insert digest valid c s id v m). auto.
+    - pose proof (delete_fresh c s id F) as X. destruct (delete c s id). auto.
+    - pose proof (batch_delete_fresh c s ids F) as X. destruct (batch_delete c s ids). auto.
+    - pose proof (update_meta_fresh s id m merge F) as X. destruct (update_meta s id m merge). auto.
+    - pose proof (bulk_load_fresh c s docs F) as X. destruct (bulk_load valid c s docs). auto.
+    - pose proof (flush_no_orphan c s force NO) as [C Fr]. destruct (flush valid c s force). cbn in *. auto.
+    - cbn [fst]. destruct (audit_frame c s) as [C [Fr _]]. auto.
+    - cbn [fst]. destruct (tick_no_orphan c s NO) as [C Fr]. auto.
+    - cbn [fst]. apply R; [|apply hot_sub_eq]; unfold poke_l1; destruct b; reflexivity.
+  Qed.
+
+  Theorem api_no_stale_mirror : forall c docs ops,
+    forallb no_hot_poke ops = true ->
+    let s := run c (init docs) ops in
+    forall id h, lookup id (hot s) = Some h ->
+    (exists r, lookup id (cold s) = Some r /\ h_vec h = c_vec r /\ h_tok h = (c_ver r, digest (c_vec r))) /\
+    canon_state s id (h_vec h) (h_tok h) = CMatch.
+  Proof.
+    intros c docs ops G. cbv zeta.
+    assert (F : mirror_fresh (run c (init docs) ops)).
+    { unfold Tiered.run. assert (I : mirror_fresh (init docs)) by (unfold mirror_fresh, init; cbn; congruence).
+      revert G I. generalize (init docs). induction ops as [|o r IH]; cbn; intros s0 G I; auto.
+      apply andb_true_iff in G. destruct G as [G1 G2]. apply IH; auto. apply step_fresh; auto. }
+    intros id h H. split; [apply F; auto|apply fresh_match; auto].
   Qed.
 
   (* final forms pinned in Properties/C20.v *)
